@@ -147,7 +147,7 @@ def make_arg(form, pairs):
 
 def form_ok(form, pairs):
     keys = [k for k, _ in pairs]
-    if form in UNIQUE_KEY_FORMS and len(set(keys)) != len(keys):
+    if form in UNIQUE_KEY_FORMS and (len(set(keys)) != len(keys) or any(k >= 900 for k in keys)):
         return False
     if form == "kwargs" and not all(k in IDENT for k in keys):
         return False
@@ -196,6 +196,32 @@ def _creates(pairs):
     return len(set(d.values())) == len(d)
 
 
+def _unh(x):
+    """does this operand (token, list of tokens/pairs) mention an unhashable token"""
+    if isinstance(x, int) and not isinstance(x, bool):
+        return x >= 900
+    if isinstance(x, list):
+        return any(_unh(y) for y in x)
+    return False
+
+
+def _new_rejects(pairs):
+    """OneToOne(pairs) raises TypeError: an unhashable key, or an unhashable value that survives in dict(pairs)
+    (input bookkeeping for index validity only)"""
+    d = {}
+    for k, v in pairs:
+        d[k] = v
+    return any(k >= 900 for k, _ in pairs) or any(v >= 900 for v in d.values())
+
+
+def oto_op_has_unhashable(op):
+    if op[0] == "new":
+        return _unh(op[3])
+    if op[0] == "op":
+        return any(_unh(a) for a in op[4:])
+    return False
+
+
 def gen_oto(rng, tier):
     ntok = rng.choice([3, 4, 4, 5, 6, 8])
     toks = rng.sample(range(len(OBJ)), ntok)
@@ -206,15 +232,23 @@ def gen_oto(rng, tier):
     ops.append(["new", rng.random() < 0.15 and _creates(p), _pick_form(rng, OTO_FORMS, p), p])
     ninst = 1
     nops = rng.randint(2, 14 if tier == "quick" else 30)
+    # a quarter of the histories also hand unhashable objects (lists) to the operations: TypeError, nothing written
+    punh = 0.12 if rng.random() < 0.25 else 0.0
+
+    def U(t):
+        return 900 + rng.randrange(3) if punh and rng.random() < punh else t
+
+    def Up(ps):
+        return [[U(k), U(v)] for k, v in ps]
     for _ in range(nops):
         r = rng.random()
         i = rng.randrange(ninst)
         s = int(rng.random() < 0.45)
         if r < 0.06 and ninst < 3:
-            p = _pairs(rng, toks, 0, 4)
+            p = Up(_pairs(rng, toks, 0, 4))
             uniq = rng.random() < 0.3
             ops.append(["new", uniq, _pick_form(rng, OTO_FORMS, p), p])
-            if not uniq or _creates(p):     # a unique() that raises ValueError creates nothing
+            if not _new_rejects(p) and (not uniq or _creates(p)):     # a constructor that raises creates nothing
                 ninst += 1
         elif r < 0.13 and ninst < 3:
             ops.append(["copy", rng.choice(["copy", "ctor", "copycopy"]), i, s])
@@ -224,13 +258,13 @@ def gen_oto(rng, tier):
         else:
             name = rng.choice(["set", "set", "set", "set", "del", "pop", "popd", "popitem", "clear", "setdefault",
                                "setdefault", "update", "update", "update", "ior", "get"])
-            k, v = rng.choice(toks), rng.choice(toks)
+            k, v = U(rng.choice(toks)), U(rng.choice(toks))
             if name in ("update", "ior"):
                 if rng.random() < 0.2:
-                    p = _kw_pairs(rng, toks, 1, 3)
+                    p = [[a, U(b)] for a, b in _kw_pairs(rng, toks, 1, 3)]
                     ops.append(["op", i, s, name, p, rng.choice(["kwargs", "dict+kw"])])
                 else:
-                    p = _pairs(rng, toks, 0, 4)
+                    p = Up(_pairs(rng, toks, 0, 4))
                     ops.append(["op", i, s, name, p, _pick_form(rng, OTO_FORMS, p)])
             elif name in ("set", "setdefault", "popd"):
                 ops.append(["op", i, s, name, k, v])
@@ -481,6 +515,10 @@ def run_oto(case):
             if not (op[0] == "new" and op[1]):
                 raise
             res = ["raise", "ValueError"]
+        except TypeError:
+            if not oto_op_has_unhashable(op):      # only an unhashable operand may be refused
+                raise
+            res = ["raise", "TypeError"]
         obs.append([res, _oto_views(insts)])
     return obs
 
